@@ -218,7 +218,7 @@ impl Hist {
                     }
                     _ => bad.push(("injected-panic-unexpected".into(), format!("injected panic in {:?}", op))),
                 }
-                ret_owner = self.f.panic || self.f.shape || self.f.len || self.f.arena;
+                ret_owner = self.f.panic || self.f.shape || self.f.len || self.f.arena || self.f.child;
             }
             (Err(p), _) => {
                 let own = self.f.ret || self.f.panic || self.f.clone || (self.f.muta && is_write_op(op)) || (self.f.child && matches!(op, Op::Retain(..) | Op::RemoveChildren(_)));
@@ -843,6 +843,7 @@ impl Hist {
                     || (self.f.muta && wrote)
                     || (self.f.clone && matches!(op, Op::Replace(_)))
                     || (self.f.panic && injected)
+                    || (self.f.child && injected && matches!(op, Op::Retain(..)))
                     || (self.f.repr && matches!(op, Op::ViewMut(_, VAct::Set(_))));
                 if own {
                     let sig = if injected { "state-after-injected-panic".to_string() } else { format!("state/{}", op_name(op)) };
@@ -1295,6 +1296,27 @@ impl Hist {
         if vks != mk {
             bad.push(("shape/valued-nodes".into(), format!("valued nodes {:?} differ from the stored keys {:?}", vk, mk)));
             return bad;
+        }
+        // ---- a view located by view_at / find is a well-formed sub-trie too: its prefix covers all it exposes
+        for _ in 0..4 {
+            let q = self.g.hkey(&self.m);
+            let q2 = self.g.hkey(&self.m);
+            let nav = match self.g.rng.below(3) {
+                0 => vec![Nav::Find(q2)],
+                1 => vec![Nav::Left, Nav::Find(q2)],
+                _ => vec![Nav::Right, Nav::ViewAt(q2)],
+            };
+            let prog = ViewProg { root: Some(q), nav };
+            let steps = self.w.view(self.slot, &prog, self.step_no % 2 == 0);
+            if let Some(last) = steps.last() {
+                if last.ok && !last.prefix.is_none() {
+                    if let Some(e) = last.entries.iter().find(|(p, _)| !last.prefix.covers(*p)) {
+                        bad.push(("shape/view-exposes-entry-outside-its-prefix".into(), format!("the view reached by {:?} has prefix {:?} but exposes {:?}", prog, last.prefix, e.0)));
+                        return bad;
+                    }
+                }
+            }
+            ev.count("shape/located_view_checks", 1);
         }
         // ---- shape preservation by value-only operations
         let value_only = match op {
